@@ -577,7 +577,7 @@ impl Backend for RtWorld {
             plan.down_ms = down;
             core.ctx.count("fault.latency");
             if self.faults.slow_body && core.tape.draw(4) == 3 {
-                plan.body = BodyPlan { cut_at: None, frame: 64 + core.tape.draw(4000) as usize, frame_delay_ms: 1 + core.tape.draw(30) };
+                plan.body = BodyPlan { cut_at: None, frame: 64 + core.tape.draw(4000) as usize, frame_delay_ms: 1 + core.tape.draw(30), empty_frame_every: [0usize, 0, 1, 3][core.tape.draw(4) as usize] };
                 core.ctx.count("fault.slow_body");
             }
         }
